@@ -10,35 +10,35 @@ _lib = {}
 def plan(tier, seed):
     alts = spaces.label_choices(seed, 2)
     if tier == 'quick':
+        nr = dict(reuse=False)
         by_mode = {
             'absent': [dict(n=3, m=2, labels='ints', schemes='four', configs='fast'),
-                       dict(n=3, m=2, labels='ints_rev', schemes='two', configs='fast'),
-                       dict(n=3, m=2, labels='letters', schemes='two', configs='fast'),
-                       dict(n=3, m=2, labels='mixed_strings', schemes='two', configs='fast'),
-                       dict(n=3, m=2, labels='digit_strings', schemes='one', configs='fast_det'),
-                       dict(n=3, m=2, labels=alts[0], schemes='two', configs='fast'),
-                       dict(n=2, m=3, labels='ints', schemes='four', configs='fast'),
+                       dict(n=3, m=2, labels='ints_rev', schemes='one', configs='fast', **nr),
+                       dict(n=3, m=2, labels='letters', schemes='one_b', configs='fast', **nr),
+                       dict(n=3, m=2, labels='mixed_strings', schemes='one', configs='fast', **nr),
+                       dict(n=3, m=2, labels='digit_strings', schemes='one', configs='fast_det', **nr),
+                       dict(n=3, m=2, labels=alts[0], schemes='one_b', configs='fast', **nr),
+                       dict(n=2, m=3, labels='ints', schemes='two', configs='fast'),
                        dict(n=1, m=2, labels='ints', schemes='four', configs='all'),
                        dict(n=1, m=2, labels='letters', schemes='two', configs='all'),
-                       dict(n=4, m=2, labels='ints', schemes='two', configs='fast_det', per=60),
-                       dict(n=3, m=2, labels='ints', schemes='two', configs='cbc', per=6),
-                       dict(n=2, m=3, labels='letters', schemes='one', configs='cbc', per=6),
-                       dict(space='ext43', labels='mixed_strings', schemes='ext1', configs='parcons_fast', per=300),
-                       dict(space='ext43', labels='ints_rev', schemes='ext1', configs='parcons_fast', per=300)],
-            'absent_enum': [dict(n=3, m=2, labels='ints', schemes='four', configs='solver'),
-                            dict(n=3, m=2, labels='letters_rev', schemes='two', configs='solver'),
-                            dict(n=3, m=2, labels='mixed_strings', schemes='two', configs='solver'),
-                            dict(n=2, m=3, labels='ints', schemes='two', configs='solver'),
-                            dict(space='ext43', labels='mixed_strings', schemes='ext1', configs='decomp', per=300),
-                            dict(space='ext43', labels='ints', schemes='ext1', configs='decomp', per=300)],
-            'stub': [dict(n=3, m=2, labels='ints', schemes='four', configs='solver'),
-                     dict(n=3, m=2, labels='letters', schemes='two', configs='solver'),
-                     dict(n=3, m=2, labels='mixed_strings', schemes='two', configs='solver'),
-                     dict(n=2, m=3, labels='ints_rev', schemes='two', configs='solver'),
+                       dict(n=4, m=2, labels='ints', schemes='one_b', configs='fast_det', per=60),
+                       dict(n=3, m=2, labels='ints', schemes='one', configs='cbc', per=6, **nr),
+                       dict(n=2, m=3, labels='letters', schemes='one', configs='cbc', per=6, **nr),
+                       dict(n=3, m=2, labels='ints', schemes='one', configs='fast_det', premutate=True, **nr),
+                       dict(n=3, m=2, labels='mixed_strings', schemes='one', configs='fast_det', premutate=True, **nr),
+                       dict(space='ext43', labels='mixed_strings', schemes='ext1', configs='parcons_fast', per=300, **nr)],
+            'absent_enum': [dict(n=3, m=2, labels='ints', schemes='two', configs='solver'),
+                            dict(n=3, m=2, labels='letters_rev', schemes='one', configs='solver', **nr),
+                            dict(n=3, m=2, labels='mixed_strings', schemes='one_b', configs='solver', **nr),
+                            dict(n=2, m=3, labels='ints', schemes='one', configs='solver', **nr),
+                            dict(space='ext43', labels='mixed_strings', schemes='ext1', configs='decomp', per=300, **nr)],
+            'stub': [dict(n=3, m=2, labels='ints', schemes='two', configs='solver'),
+                     dict(n=3, m=2, labels='letters', schemes='one', configs='solver', **nr),
+                     dict(n=3, m=2, labels='mixed_strings', schemes='one_b', configs='solver', **nr),
+                     dict(n=2, m=3, labels='ints_rev', schemes='one', configs='solver', **nr),
                      dict(n=1, m=2, labels='ints', schemes='two', configs='all'),
                      dict(n=4, m=2, labels='ints', schemes='one_b', configs='cplex', per=60),
-                     dict(space='ext43', labels='mixed_strings', schemes='ext1', configs='decomp', per=300),
-                     dict(space='ext43', labels='letters', schemes='ext1', configs='decomp', per=300)],
+                     dict(space='ext43', labels='mixed_strings', schemes='ext1', configs='decomp', per=300)],
         }
     else:
         labs = ['ints', 'ints_rev', 'letters', 'digit_strings', 'mixed_strings', 'ints_collide', 'words']
@@ -141,6 +141,8 @@ def oracle(ctx, info):
         ctx.count('results_with_several_rankings')
     if any(len(r) == 0 for r in info.ds):
         ctx.count('runs_on_datasets_with_an_empty_ranking')
+    if getattr(info, 'origin', None):
+        ctx.count('runs_on_datasets_mutated_in_place_after_being_looked_at')
     if len(info.universe) == 4 and 'parcons' in info.cfg.tags or 'optimize' in info.cfg.tags:
         nt = refmodel.nontrivial_components(info.universe, info.ref.table)
         if nt and len(refmodel.components(info.universe, info.ref.table)) > 1:
